@@ -42,6 +42,14 @@ def responses_for(rng, pw, old, nonce, other_nonce, quick):
     return out
 
 
+def hex_ok(a):
+    try:
+        bytes.fromhex(a)
+        return True
+    except ValueError:
+        return False
+
+
 class IP(IdentityProvider):
     def __init__(self, users, plugins):
         self.users, self.plugins = users, plugins
@@ -135,12 +143,20 @@ def run(ctx: core.Ctx):
         old = gen_password(rng) if rng.random() < 0.5 else None
         kind = rng.random()
         auth = NativePasswordAuthPlugin.create_auth_string(pw)
+        malformed = ["zz" + auth[2:], auth[:-1], auth.upper(), " " + auth, auth[:20] + " " + auth[20:], "0x" + auth, auth + "00", "*" + auth.upper(),
+                     "not-a-hash", " ", "0", "g"]
+        if len(cases) == 0:
+            # every tier: each malformed shape of the stored hash, against every kind of response (incl. the empty one)
+            nonce0 = bytes(rng.choice(MU.SAFE_NONCE_CHARS) for _ in range(20))
+            for bad in malformed + [None, ""]:
+                for label, resp in responses_for(rng, pw, old, nonce0, nonce0[::-1], True)[:6]:
+                    cases.append((bad, None, nonce0, resp, label, pw))
         if kind < 0.12:
             auth = None
         elif kind < 0.2:
             auth = ""
         elif kind < 0.3:
-            auth = rng.choice(["zz" + auth[2:], auth[:-1], auth.upper(), " " + auth, auth[:20] + " " + auth[20:], "0x" + auth, auth + "00"])
+            auth = rng.choice(malformed)
         oldauth = NativePasswordAuthPlugin.create_auth_string(old) if old else None
         nonce = bytes(rng.choice(MU.SAFE_NONCE_CHARS) for _ in range(20))
         other = bytes(rng.choice(MU.SAFE_NONCE_CHARS) for _ in range(20))
@@ -168,6 +184,9 @@ def run(ctx: core.Ctx):
                 should = False
             if got != should and witness is None:
                 witness = dict(kind="password_matches", label=label, accepted=got, expected=should, nonce=list(n), response=list(r))
+        elif a not in (None, "") and o is None and got and witness is None and not hex_ok(a):
+            # a stored hash that does not decode proves nothing about any password: no response may be accepted
+            witness = dict(kind="password_matches-undecodable-account", auth=a, label=label, accepted=True, expected=False, nonce=list(n), response=list(r))
 
     # ---- nonces issued by the library ------------------------------------------------------------------------------
     seen = set()
@@ -193,6 +212,14 @@ def run(ctx: core.Ctx):
                     continue
                 if ok != should or (ok and uname != "target"):
                     witness = witness or dict(kind="route", route=route, password_ok=should, accepted=ok, session_username=uname)
+    for route in routes:
+        for bad in ("not-a-hash", "*" + NativePasswordAuthPlugin.create_auth_string("pw").upper(), NativePasswordAuthPlugin.create_auth_string("pw")[:-1]):
+            user = User(name="target", auth_string=bad, auth_plugin="mysql_native_password")
+            for attempt in (b"", b"pw"):
+                ok, uname = route_run(route, user, attempt)
+                nroute += 1
+                if ok:
+                    witness = witness or dict(kind="route-undecodable-account", route=route, auth_string=bad, password_try=attempt.decode(), accepted=True)
     ctx.evals += nroute
 
     # ---- clear password and no-login ---------------------------------------------------------------------------------
